@@ -152,6 +152,8 @@ func init() {
 			{ID: "C08.7", Doc: "no well-formed query is dropped for its size: the read buffer is longer than any UDP payload", Floor: 1, Run: c08r7},
 			{ID: "C08.8", Doc: "the source address is not altered between receipt and reply: no library function stores into the bytes of a net.IP it was given", Floor: 1, Run: c08r8},
 			{ID: "C08.9", Doc: "the transaction id and method answered are those of this datagram: fresh decode target per datagram (shared with C07.7)", Floor: 1, Run: c07r7},
+			{ID: "C08.10", Doc: "a query is never mistaken for a response: the transaction lookup is behind y ≠ q (shared with C07.8)", Floor: 1, Run: c07r8},
+			{ID: "C08.11", Doc: "the bytes of a reply are not shared with a recycled buffer: nothing returned to a sync.Pool is still referenced by a returned slice", Floor: 1, Run: cPoolLifetime},
 			{ID: "C08.6", Doc: "the address wrapper hands back the complete address it was built from", Floor: 2, Run: c08r6},
 		},
 	})
@@ -869,5 +871,56 @@ func c08r8(w *World, rr *RuleRun) {
 	})
 	if n == 0 {
 		rr.ObligeTrivial("(library)", "no library code writes IP bytes in place", "-", true, "")
+	}
+}
+
+// cPoolLifetime: a function that hands an object back to a sync.Pool (directly or deferred) must not
+// return memory of that object (buf.Bytes(), a reslice): the next Get may overwrite it while the
+// caller still uses it. Shared by C08.11 (reply bytes) and C12.7 (buffer that is signed/verified).
+func cPoolLifetime(w *World, rr *RuleRun) {
+	n := 0
+	for _, f := range w.P.LibFuncs {
+		var puts []ssa.Value
+		eachInstr([]*ssa.Function{f}, func(_ *ssa.Function, ins ssa.Instruction) {
+			c := callInstrCommon(ins)
+			if c == nil {
+				return
+			}
+			if o := calleeObj(c); o != nil && o.Name() == "Put" && recvNamed(o) == "Pool" && len(c.Args) == 2 {
+				v := c.Args[1]
+				if mi, ok := v.(*ssa.MakeInterface); ok {
+					v = mi.X
+				}
+				puts = append(puts, v)
+			}
+		})
+		if len(puts) == 0 {
+			continue
+		}
+		for _, b := range f.Blocks {
+			for _, ins := range b.Instrs {
+				r, ok := ins.(*ssa.Return)
+				if !ok {
+					continue
+				}
+				for _, res := range r.Results {
+					if _, isSlice := res.Type().Underlying().(*types.Slice); !isSlice {
+						continue
+					}
+					n++
+					rt := w.TS.Of(res)
+					bad := ""
+					for _, pv := range puts {
+						if rt.Contains(w.TS.Of(pv)) {
+							bad = "returns " + trunc(rt.String(), 80) + ", memory of an object this function puts back into a pool"
+						}
+					}
+					rr.At(w, ins, "no returned slice aliases an object handed back to a pool", bad == "", bad)
+				}
+			}
+		}
+	}
+	if n == 0 {
+		rr.ObligeTrivial("(library)", "no library function both recycles an object and returns a slice", "-", true, "no sync.Pool use")
 	}
 }
